@@ -550,7 +550,43 @@ def rule_header_context(ctx, R="C14/header-context"):
     ctx.floor(R, "ModuleReader constructions", n, 1)
 
 
+def rule_process_read_verbatim(ctx, R="C14/module-read-verbatim"):
+    """every decoder above it assumes that ProcessMemory::read(offset, length) returns the bytes [offset, offset+length) of the module or
+    an error: the Process arm asks the reader for exactly (start_address + offset, length) and the Slice arm takes exactly
+    [offset, offset + length) — no clamp, rounding or cap in between (a silent cap makes a long, valid note segment or string table look
+    truncated)."""
+    b = ctx.body(R, MR + "::ProcessMemory::read")
+    if b is None:
+        return
+    o = Origin(b)
+    rv = [(bi, o.call_args(bi)) for bi, t in b.calls(lambda c: c.endswith("MemReader::read_to_vec"))]
+    ctx.floor(R, "read_to_vec in ProcessMemory::read", len(rv), 1)
+    for bi, a in rv:
+        addr, ln = core(a[1]), strip(a[2])
+        while addr[0] == "call" and addr[1].split("::")[-1] in ("ok_or_else", "ok_or") and addr[2]:
+            addr = core(addr[2][0])
+        oka = addr[0] == "call" and addr[1].split("::")[-1] == "checked_add" and {nosite(core(x)) for x in addr[2]} == {("param", 2), nosite(core(("field", ("field", ("variant", ("param", 1), "Process"), "0"), "start_address")))} or \
+            (addr[0] == "call" and addr[1].split("::")[-1] == "checked_add" and any(core(x) == ("param", 2) for x in addr[2]) and any(core(x)[0] == "field" and core(x)[2] == "start_address" for x in addr[2]))
+        while ln[0] == "call" and ln[1].split("::")[-1] in ("ok_or_else", "ok_or") and ln[2]:
+            ln = strip(ln[2][0])
+        okl = ln[0] == "call" and ln[1].split("::")[-1] == "new" and core(ln[2][0]) == ("param", 3)
+        ctx.check(oka and okl, R, "process-arm", b.where(bi), "the reader is asked for (start_address + offset, length) as given", "the Process arm reads (%s, %s)" % (show(addr)[:70], show(ln)[:70]))
+    gs = [(bi, o.call_args(bi)) for bi, t in b.calls(lambda c: (c.short or "").split("::")[-1] == "get" and "slice" in (c.short or ""))]
+    ctx.floor(R, "slice get in ProcessMemory::read", len(gs), 1)
+    for bi, a in gs:
+        rg = strip(a[1])
+        oks = rg[0] == "agg" and rg[2] == "Range"
+        if oks:
+            f = dict(rg[3])
+            end = core(f["end"])
+            while end[0] == "call" and end[1].split("::")[-1] in ("ok_or_else", "ok_or") and end[2]:
+                end = core(end[2][0])
+            oks = core(f["start"]) == ("param", 2) and end[0] == "call" and end[1].split("::")[-1] == "checked_add" and [core(x) for x in end[2]] == [("param", 2), ("param", 3)]
+        ctx.check(oks, R, "slice-arm", b.where(bi), "the Slice arm takes [offset, offset + length)", "the Slice arm takes %s" % show(rg)[:100])
+
+
 def run(ctx):
+    rule_process_read_verbatim(ctx)
     rule_header_context(ctx)
     rule_dynamic_entries(ctx)
     rule_strtab_window(ctx)
@@ -563,3 +599,9 @@ def run(ctx):
     rule_header_tables(ctx)
     rule_zero_length_read(ctx)
     rule_mem_file_siblings(ctx)
+    # "reading the same module from target memory and from its file gives the same answers": a short read of target memory is a short
+    # buffer, never a zero-padded one (same rule instances as C17/prefix-only, C17/args)
+    from rules import c17 as _c17r
+    _c17r.rule_prefix_only(ctx, R="C14/reader-prefix-only")
+    _c17r.rule_args(ctx, R="C14/reader-args")
+
